@@ -32,3 +32,14 @@ Definition ledger : list (string * string * string) :=
   (* poisoned update mutex: only after an earlier panic while it was held *)
   ("updater_lock.rs", "with_updater_thread_lock", "panic")
   ].
+
+(* The check is on (file, kind) with multiplicity, and one-directional: every explicit panic site / unsafe block /
+   thread spawn of the current sources must be covered by an audited entry of the same kind in the same file.
+   Renaming or splitting a function, or REMOVING a site, is harmless and keeps the check; a NEW site, or a site
+   moved to another file, is not covered and breaks it. *)
+Definition fk (s : string * string * string) : string * string := (fst (fst s), snd s).
+Definition fk_eqb (a b : string * string) : bool := String.eqb (fst a) (fst b) && String.eqb (snd a) (snd b).
+Definition count_fk (k : string * string) (l : list (string * string * string)) : nat :=
+  List.length (List.filter (fun s => fk_eqb k (fk s)) l).
+Definition covered (sites led : list (string * string * string)) : bool :=
+  List.forallb (fun s => Nat.leb (count_fk (fk s) sites) (count_fk (fk s) led)) sites.
